@@ -613,3 +613,20 @@ package protocol
 //@   loop 0:
 //@     invariant 0 <= i && i <= n && n == len(h)
 //@     invariant forall(k, 0, len(h), h[k].noValue == old(h[k].noValue) && sameSlice(h[k].value, old(h[k].value)))
+
+// C17 (serialising an argument list): each entry is its percent-encoded key, then '=' and the encoded value unless
+// the entry is marked as having no value (an empty value gives a bare '='), and a single '&' between entries.
+//@ func Args.AppendBytes(a, dst) r
+//@   props C17, C03
+//@   requires a != nil
+//@   modifies spare(dst), qx, qpos, qn, qfs
+//@   allocates
+//@   ensures extends(r, dst) && spareOnly(dst)
+//@   assert @C17 before AppendQuotedArg#0: sameSlice(arg1, a.args[i].key) && sameSlice(arg0, dst)
+//@   assert @C17 before append#0: !a.args[i].noValue
+//@   assert @C17 before AppendQuotedArg#1: !a.args[i].noValue && len(a.args[i].value) > 0 && sameSlice(arg1, a.args[i].value) && sameSlice(arg0, dst) && len(dst) > 0 && dst[len(dst) - 1] == '='
+//@   assert @C17 before append#1: i + 1 < n
+//@   loop 0:
+//@     invariant 0 <= i && i <= n && n == len(a.args) && sameSlice(a.args, old(a.args))
+//@     invariant extends(dst, old(dst)) && spareOnly(old(dst))
+
